@@ -147,6 +147,8 @@ type argSpec struct {
 	st   gen.SType
 	v    gen.VecCase
 	m    gen.MatCase
+	// the matrix is handed over as the T() view of a matrix that stores the transposed content
+	tview bool
 }
 
 func (a argSpec) build() reflect.Value {
@@ -160,6 +162,15 @@ func (a argSpec) build() reflect.Value {
 	case "vector":
 		return reflect.ValueOf(a.v.Build())
 	default:
+		if a.tview {
+			tc := gen.MatCase{T: a.m.T, Sparse: a.m.Sparse, Rows: a.m.Cols, Cols: a.m.Rows, E: make([]gen.Elem, len(a.m.E)), Pattern: a.m.Pattern}
+			for i := 0; i < a.m.Rows; i++ {
+				for j := 0; j < a.m.Cols; j++ {
+					tc.E[j*a.m.Rows+i] = a.m.E[i*a.m.Cols+j]
+				}
+			}
+			return reflect.ValueOf(tc.Build().T())
+		}
 		return reflect.ValueOf(a.m.Build())
 	}
 }
@@ -175,6 +186,9 @@ func (a argSpec) String() string {
 	case "vector":
 		return a.v.String()
 	default:
+		if a.tview {
+			return a.m.String() + " (as a T() view)"
+		}
 		return a.m.String()
 	}
 }
@@ -414,6 +428,16 @@ func runPair(t *rapid.T, aspect string, kind string) {
 	if kind == "vector" && name == "MDOTV" {
 		recvSpec.v = gen.DrawVec(t, "r2", st, p.sparse, n, dm, false)
 	}
+	// matrices may be transposed views (same elements, other memory layout)
+	tviews := false
+	if recvSpec.kind == "matrix" && rapid.IntRange(0, 3).Draw(t, "recv.tview") == 0 {
+		recvSpec.tview, tviews = true, true
+	}
+	for i := range specs {
+		if specs[i].kind == "matrix" && rapid.IntRange(0, 3).Draw(t, fmt.Sprintf("arg%d.tview", i+1)) == 0 {
+			specs[i].tview, tviews = true, true
+		}
+	}
 	var descs []string
 	for _, s := range specs {
 		descs = append(descs, s.String())
@@ -421,6 +445,9 @@ func runPair(t *rapid.T, aspect string, kind string) {
 	c := obs.Begin(aspect, "%s.%s/%s recv=%s args=[%s]", p.recv, p.concrete, p.generic, recvSpec, strings.Join(descs, " | "))
 	c.Classf("%s.%s", p.recv, p.concrete)
 	c.Classf("method=%s", p.concrete)
+	if tviews {
+		c.Class("a matrix is a transposed view")
+	}
 	// with probability 1/3 the receiver is passed as one of its own operands (in both calls): the
 	// concrete and the generic method must agree under aliasing as well
 	alias := -1
